@@ -150,3 +150,25 @@ func NoEscape(p unsafe.Pointer) unsafe.Pointer {
 	x := uintptr(p)
 	return unsafe.Pointer(x ^ 0)
 }
+
+const (
+	vecPageSize = 4096
+	// VecOverRead bounds how far vectorised scanners (the native JSON state machine, sonic's skippers)
+	// may load past the end of their input.
+	VecOverRead = 64
+)
+
+// GuardTail returns v, or a copy of v with VecOverRead spare bytes of capacity when v ends so close to a
+// page boundary that a vector load past its end could leave the mapped page the caller's buffer lives in.
+func GuardTail(v []byte) []byte {
+	if len(v) == 0 {
+		return v
+	}
+	end := uintptr((*GoSlice)(unsafe.Pointer(&v)).Ptr) + uintptr(len(v))
+	if off := end & (vecPageSize - 1); off != 0 && off <= vecPageSize-VecOverRead {
+		return v
+	}
+	padded := make([]byte, len(v), len(v)+VecOverRead)
+	copy(padded, v)
+	return padded
+}
